@@ -107,7 +107,17 @@ impl SeqModel for C15 {
     type Action = Act;
 
     fn initial(&self) -> Vec<(String, St)> {
-        vec![("append-only".to_string(), base(true)), ("normal".to_string(), base(false))]
+        let mut v = vec![("append-only".to_string(), base(true)), ("normal".to_string(), base(false))];
+        // an append-only repository whose snapshots are damaged in a way `repair snapshots` can see:
+        // a data pack was lost and the index repaired *before* the repository was made append-only
+        // (on an append-only repository repair-index is refused, so the search cannot get there)
+        let mut s = base(false);
+        let mut scratch = Report::default();
+        for a in [Act::LosePack, Act::RepairIndex { read_all: false, dry: false }, Act::SetAppendOnly(true)] {
+            s = self.step(&s, &a, &mut scratch).expect("building the damaged append-only state");
+        }
+        v.push(("append-only-damaged".to_string(), s));
+        v
     }
 
     fn actions(&self, s: &St) -> Vec<Act> {
